@@ -14,6 +14,7 @@ import (
 	"fmt"
 	"net"
 	"os"
+	"runtime"
 	"strings"
 
 	"github.com/smart-core-os/sc-api/go/traits"
@@ -143,8 +144,22 @@ func evKind(e string) string {
 
 // checkCase evaluates the property on one script pair: wrapper vs bufconn gRPC, plus leak and copy.
 func checkCase(w *world, mon *lib.Monitor, c scase) (ow, og outcome) {
-	ow = runCase(w.wrapEP, w.srv, c, true)
-	og = runCase(w.grpcEP, w.srv, c, false)
+	if strings.ContainsAny(c.Cli, "dz") {
+		// a script that waits for the caller's deadline is a pure wait on both transports: the two runs are made side
+		// by side (each has its own call record; such scripts never use the anonymous slot). The goroutine count is
+		// taken around both; only if it does not come back is the wrapper run again on its own, with its own count.
+		base := runtime.NumGoroutine()
+		ch := make(chan outcome, 1)
+		go func() { ch <- runCase(w.grpcEP, w.srv, c, false) }()
+		ow = runCase(w.wrapEP, w.srv, c, false)
+		og = <-ch
+		if !ow.skip && !og.skip && !og.timedOut && c.Amp == 0 && settle(base) > 0 {
+			ow = runCase(w.wrapEP, w.srv, c, true)
+		}
+	} else {
+		ow = runCase(w.wrapEP, w.srv, c, true)
+		og = runCase(w.grpcEP, w.srv, c, false)
+	}
 	if og.skip || ow.skip {
 		og.timedOut = true
 		mon.Count("skipped:too-slow-for-deadline")
